@@ -18,6 +18,20 @@ fn dup_logical(rng: &mut Rng, i: u64, codec: u8) -> Logical {
         _ => SizeClass::Small,
     };
     let mut l = gen::gen_logical(rng, class, codec);
+    if class == SizeClass::Spill {
+        // leaf-spilling archives WITH runs: every few entries a run of 2-9 identical consecutive ids (runs straddle any
+        // boundary a writer may draw by counting entries or addressed tiles)
+        let keys: Vec<u64> = l.tiles.keys().copied().collect();
+        for w in keys.windows(2).step_by(5) {
+            let c = l.tiles[&w[0]].clone();
+            let r = rng.range(1, 8).min(w[1] - w[0] - 1);
+            for d in 1..=r {
+                l.tiles.insert(w[0] + d, c.clone());
+            }
+        }
+        l.class.push_str("/with-runs");
+        return l;
+    }
     let ids: Vec<u64> = l.tiles.keys().copied().collect();
     if ids.is_empty() {
         return l;
@@ -301,6 +315,9 @@ pub fn run(ctx: &mut Ctx) {
             if i % 5 == 2 {
                 // into a stream that still holds an older, longer file: the archive's sections must not grow to cover stale bytes
                 arch.save_over(3_000_000).map_err(|e| e.to_string())
+            } else if i % 10 == 7 {
+                // written by another thread than the one that added the tiles
+                std::thread::spawn(move || arch.save().map_err(|e| e.to_string())).join().unwrap_or_else(|_| Err(String::from("writer thread panicked")))
             } else {
                 arch.save().map_err(|e| e.to_string())
             }
